@@ -39,8 +39,13 @@ def gen_kgrid(rng):
         return {'kind': 'scale', 'eps': rng.choice([1e-3, 1e-4, 3e-5, 1e-6, 1e-7, -1e-4, -1e-6])}
     if r < 0.9:
         return {'kind': 'point', 'where': rng.choice(['first', 'last', 'mid', 'rand']), 'f': rng.choice([0.1, 0.5, 2.0, 10.0, -0.5, -10.0, 1e4])}
-    if r < 0.95:
+    if r < 0.93:
         return {'kind': 'other_domain', 'factor': rng.choice([2.0, 0.5, 1.01])}
+    if r < 0.96:
+        # the right k values in the wrong order (descending table, two rows exchanged)
+        return {'kind': 'permute', 'how': rng.choice(['reverse', 'swap2', 'swap2'])}
+    if r < 0.985:
+        return {'kind': 'nonfinite', 'val': rng.choice(['nan', 'nan', 'inf', '-inf']), 'where': rng.choice(['first', 'last', 'rand'])}
     return {'kind': 'r_grid'}
 
 
@@ -67,6 +72,23 @@ def make_kcol(kg, k, r, m, rs):
         return out
     if kind == 'other_domain':
         return base * kg['factor']
+    if kind == 'permute':
+        out = np.copy(base)
+        if m >= 2:
+            if kg['how'] == 'reverse':
+                out = out[::-1].copy()
+            else:
+                i = int(rs.randint(0, m - 1))
+                out[i], out[i + 1] = out[i + 1], out[i]
+        return out
+    if kind == 'nonfinite':
+        out = np.copy(base)
+        if m:
+            j = {'first': 0, 'last': m - 1}.get(kg['where'])
+            if j is None:
+                j = int(rs.randint(0, m))
+            out[j] = {'nan': np.nan, 'inf': np.inf, '-inf': -np.inf}[kg['val']]
+        return out
     if kind == 'r_grid':
         dr = r[0]
         return dr * np.arange(1, m + 1)
@@ -238,6 +260,7 @@ class World(BaseWorld):
             kc = np.array([r[0] for r in rows], dtype=float)
             q = ratio(kc, k)
             if not np.all(np.isfinite(q)):
+                ctx.probe('kcol_nonfinite')
                 return ('raise', 'non-finite k column')
             mx = float(np.max(q))
             if 0.9 < mx < 1.1:
@@ -678,12 +701,12 @@ class World(BaseWorld):
                 'eio_mid_read', 'replaced_during_evaluation', 'single_row_two_col', 'fromfile_object_reused', 'build_with_reused_fromfile', 'onecol_verbatim',
                 'twocol_verbatim', 'array_verbatim_after_caller_mutation', 'caller_array_mutated_k', 'domain_edited_in_place',
                 'domain_via_dk', 'build_ok', 'build_rejected_at_createPRISM', 'build_rejected_at_cost', 'several_prism_objects_alive',
-                'fa_view', 'fa_list', 'fa_ndarray', 'file_rejected', 'array_rejected', 'fa_k_and_omega_lengths_differ']
+                'fa_view', 'fa_list', 'fa_ndarray', 'file_rejected', 'array_rejected', 'fa_k_and_omega_lengths_differ', 'kcol_nonfinite']
 
     def rule(self):
         return ('Each run = one seed -> 1-4 episodes (a Domain change followed by 2-7 ops on that grid) over {set/replace Domain (length 2..100, dr or dk), edit Domain in place, write file (1|2 columns; '
                 'n in {N, N+-1, N-2, N/2, 2N, 0, 1, 2}; k column exact | shifted | rescaled | one point off by f x allclose tolerance | other domain '
-                '| r grid; 7 number formats; header, CRLF, no trailing newline, NaN/negative/huge values) under a durability fault {clean, torn '
+                '| permuted | containing NaN/inf | r grid; 7 number formats; header, CRLF, no trailing newline, NaN/negative/huge values) under a durability fault {clean, torn '
                 'prefix (row boundary | mid row | mid number | inside last number | uniform), lost, empty, missing, duplicated, stale tail}, '
                 'delete, arm EIO after a fraction of the characters, arm a replacement of the file right after its next open (atomic rename: the open handle keeps the old content), FromFile.calculate (fresh or re-used object), FromArray from '
                 'list|tuple|ndarray|strided view with/without k, in-place mutation of the caller\'s omega/k arrays, FromArray.calculate, build '
